@@ -5,7 +5,7 @@ use super::*;
 use crate::report::{Run, Sink, Tally};
 use cozy_chess::*;
 use refmodel::text::{expressible, to_fen};
-use refmodel::{Col, Kind, Pos};
+use refmodel::{Kind, Pos};
 use serde_json::{json, Value};
 use std::collections::HashMap;
 use std::sync::Mutex;
@@ -755,8 +755,15 @@ pub fn run(run: &mut Run) -> Result<(), String> {
                 plan.raws.push((Box::new(EpUniverse::reduced()), b(if prop == "C10" { 1 } else { 0 }, 1)));
                 if prop == "C12" {
                     plan.raws.push((Box::new(Checks { n: 2 }), b(0, 0)));
+                    plan.raws.push((Box::new(EpCheck { second: vec![Kind::Q], files: (0..8).collect() }), b(0, 0)));
+                    plan.raws.push((Box::new(Caged { inner: Box::new(CheckPin { kings: vec![15, 55] }), variants: 3 }), b(0, 0)));
                 }
             } else {
+                if prop == "C12" {
+                    plan.raws.push((Box::new(Caged { inner: Box::new(CheckPin { kings: vec![15, 55, 12, 52, 20, 44, 0, 63, 27] }), variants: 3 }), b(0, 0)));
+                    plan.raws.push((Box::new(Caged { inner: Box::new(PinUniverse { kings: vec![15, 55, 12, 52, 0, 63, 27], far_side: false }), variants: 3 }), b(0, 0)));
+                    plan.raws.push((Box::new(EpCheck { second: vec![Kind::B, Kind::R, Kind::Q], files: (0..8).collect() }), b(0, 0)));
+                }
                 plan.start = Some(b(5, 1));
                 plan.mid = Some(b(3, 2));
                 plan.r960 = Some(b(2, 1));
@@ -798,7 +805,9 @@ pub fn run(run: &mut Run) -> Result<(), String> {
                 plan.raws.push((Box::new(EpFile), b(0, 0)));
                 plan.raws.push((Box::new(ThreeMen { bk: Some(vec![63, 36]) }), b(0, 0)));
                 plan.raws.push((Box::new(EpUniverse::reduced()), b(0, 0)));
+                plan.raws.push((Box::new(EpCheck { second: vec![Kind::Q], files: (0..8).collect() }), b(0, 0)));
             } else {
+                plan.raws.push((Box::new(EpCheck { second: vec![Kind::B, Kind::R, Kind::Q], files: (0..8).collect() }), b(0, 0)));
                 plan.start = Some(b(3, 1));
                 plan.mid = Some(b(2, 1));
                 plan.r960 = Some(b(1, 0));
